@@ -104,13 +104,24 @@ def run(ctx):
         data = np.column_stack([X, np.arange(N)])        # hidden third column = event index
         bkind = str(rng.choice(['count', 'edges', 'mixed', 'one-array']))
         bins = make_bins(rng, X, bkind)
-        if bkind == 'edges' and N >= 6 and rng.random() < 0.25:
+        rsp = rng.random()
+        if bkind == 'edges' and N >= 6 and rsp < 0.5:
             # special values among the events (explicit grid): NaN and +/-inf lie outside every grid and are never kept;
             # an event exactly on the outermost edge is inside (closed last bin)
-            for _ in range(int(rng.integers(1, 4))):
+            # (half of these samples stay finite, so that the in-situ oracle judges them in full)
+            for _ in range(int(rng.integers(1, 4)) if rsp < 0.25 else 0):
                 data[int(rng.integers(N)), int(rng.integers(2))] = [np.nan, np.inf, -np.inf][int(rng.integers(3))]
             j = int(rng.integers(2))
             data[int(rng.integers(N)), j] = bins[j][-1] if rng.random() < 0.5 else bins[j][0]
+            # ... and one barely beyond it (the next double, or a few parts in a million further out) is outside
+            for _ in range(int(rng.integers(0, 3)) if rsp < 0.25 else int(rng.integers(1, 4))):
+                j = int(rng.integers(2))
+                up = rng.random() < 0.6
+                e_ = float(bins[j][-1] if up else bins[j][0])
+                step = [0.0, 3e-6 * max(abs(e_), 1e-3), 1e-9 * max(abs(e_), 1e-3)][int(rng.integers(3))]
+                v_ = np.nextafter(e_, np.inf if up else -np.inf) + (step if up else -step)
+                data[int(rng.integers(N)), j] = v_
+                ctx.counters['chk:barely-outside-planted'] += 1
             ekind += '+special'
         r = rng.random()
         if r < 0.1:
